@@ -131,6 +131,7 @@ func ruleErrorDiscipline(c *Ctx, rule string) {
 	c.floor(rule, nFn, 30, "functions returning an error")
 	c.floor(rule, nRet, 20, "nil-error returns")
 	unusedCallErrors(c, rule)
+	derefBeforeErrorCheck(c, rule)
 }
 
 // ruleEveryFrameKindHandled (C09.14, C03.14): a frame of any kind does something. The two per-stream accept methods have
@@ -567,4 +568,108 @@ func allocEscapesToClosure(al *ssa.Alloc) bool {
 		}
 	}
 	return false
+}
+
+// derefBeforeErrorCheck (part of the error-discipline rule): the pointer / interface a call returns together with an error
+// is dereferenced only where that error is known to be nil. (`in, err := stream.Recv(); if in.StreamId …` before the error
+// test is a nil dereference exactly when the call fails — a peer that hangs up at the right moment crashes the process.)
+func derefBeforeErrorCheck(c *Ctx, rule string) {
+	w := c.W
+	n := 0
+	for _, fn := range w.Funcs {
+		if isGenericTemplate(fn) || fn.Synthetic != "" {
+			continue
+		}
+		allInstrsLocal(fn, func(in ssa.Instruction) {
+			call, ok := in.(*ssa.Call)
+			if !ok {
+				return
+			}
+			tup, isT := call.Type().(*types.Tuple)
+			if !isT || tup.Len() < 2 || !isErrorType(tup.At(tup.Len()-1).Type()) {
+				return
+			}
+			var errEx *ssa.Extract
+			var vals []*ssa.Extract
+			for _, r := range *call.Referrers() {
+				if ex, isEx := r.(*ssa.Extract); isEx {
+					if ex.Index == tup.Len()-1 {
+						errEx = ex
+					} else {
+						switch ex.Type().Underlying().(type) {
+						case *types.Pointer, *types.Interface:
+							vals = append(vals, ex)
+						}
+					}
+				}
+			}
+			if errEx == nil || len(vals) == 0 {
+				return
+			}
+			for _, v := range vals {
+				var derefs []ssa.Instruction
+				var track func(x ssa.Value, depth int)
+				seen := map[ssa.Value]bool{}
+				track = func(x ssa.Value, depth int) {
+					if x == nil || seen[x] || depth > 4 || x.Referrers() == nil {
+						return
+					}
+					seen[x] = true
+					for _, r := range *x.Referrers() {
+						switch y := r.(type) {
+						case *ssa.FieldAddr:
+							if y.X == x {
+								derefs = append(derefs, y)
+							}
+						case *ssa.UnOp:
+							if y.X == x && y.Op == token.MUL {
+								if _, isAl := x.(*ssa.Alloc); isAl {
+									track(y, depth+1) // reload of a variable cell
+								} else {
+									derefs = append(derefs, y)
+								}
+							}
+						case *ssa.Store:
+							if al, isAl := y.Addr.(*ssa.Alloc); isAl && y.Val == x {
+								track(al, depth+1)
+							}
+						case *ssa.Call:
+							if y.Call.IsInvoke() && y.Call.Value == x {
+								derefs = append(derefs, y)
+							}
+						case *ssa.ChangeType:
+							track(y, depth+1)
+						case *ssa.Phi:
+							track(y, depth+1)
+						}
+					}
+				}
+				track(v, 0)
+				for _, d := range derefs {
+					if d.Parent() != fn {
+						continue
+					}
+					n++
+					okNil := false
+					for _, f := range factsAt(d) {
+						x, op, y, isCmp := cmpFact(f)
+						if isCmp && op == token.EQL && isNilConst(y) && (stripConv(x) == ssa.Value(errEx) || origin(x) == ssa.Value(errEx)) {
+							okNil = true
+						}
+						// a nil test of the value itself is as good
+						if isCmp && op == token.NEQ && isNilConst(y) && (stripConv(x) == ssa.Value(v) || origin(x) == ssa.Value(v)) {
+							okNil = true
+						}
+					}
+					key := fmt.Sprintf("%s: result of %s used after its error test", w.Short(fn), calleeDescShort(call))
+					if okNil {
+						c.ok(rule, key, w.At(d), "dereferenced under err == nil")
+					} else {
+						c.fail(rule, key, w.At(d), "the value returned by "+calleeDescShort(call)+" is dereferenced on a path where its error has not been found nil: when the call fails the value is nil and the process crashes (for a carrier receive: whenever the peer hangs up at that moment)")
+					}
+				}
+			}
+		})
+	}
+	c.floor(rule, n, 5, "dereferences of values returned together with an error")
 }
